@@ -320,9 +320,12 @@ func (s *session) SetID(newID string) {
 		return
 	}
 	s.socket.SetID(newID)
+	vp("setid.set", s, 0, 0)
 	hub := s.peer.sessHub
 	hub.set(s)
+	vp("setid.hubset", s, 0, 0)
 	hub.delete(oldID)
+	vp("setid.deleted", s, 0, 0)
 	Tracef("session changes id: %s -> %s", oldID, newID)
 }
 
@@ -624,6 +627,7 @@ func (s *session) Push(serviceMethod string, args interface{}, setting ...Messag
 		}
 	}
 	output.SetSeq(atomic.AddInt32(&s.seq, 1))
+	vp("push.seq", s, int64(output.Seq()), 0)
 
 	if output.BodyCodec() == codec.NilCodecID {
 		output.SetBodyCodec(s.peer.defaultBodyCodec)
@@ -649,6 +653,7 @@ W:
 	if enablePrintRunLog() {
 		s.printRunLog("", time.Duration(s.timeNow()-ctx.start), nil, output, typePushLaunch)
 	}
+	vp("push.written", s, int64(output.Seq()), 0)
 	s.peer.pluginContainer.postWritePush(ctx)
 	return nil
 }
@@ -687,6 +692,7 @@ func (s *session) AsyncCall(
 
 	seq := atomic.AddInt32(&s.seq, 1)
 	output.SetSeq(seq)
+	vp("call.seq", s, int64(seq), 0)
 
 	if output.BodyCodec() == codec.NilCodecID {
 		output.SetBodyCodec(s.peer.defaultBodyCodec)
@@ -720,6 +726,7 @@ func (s *session) AsyncCall(
 	defer cmd.mu.Unlock()
 
 	s.callCmdMap.Store(seq, cmd)
+	vp("call.stored", s, int64(seq), 0)
 
 	defer func() {
 		if p := recover(); p != nil {
@@ -742,6 +749,7 @@ W:
 		return cmd
 	}
 
+	vp("call.written", s, int64(seq), 0)
 	s.peer.pluginContainer.postWriteCall(cmd)
 	return cmd
 }
@@ -772,27 +780,38 @@ func (s *session) closeLocked() error {
 	if !s.tryChangeStatus(statusActiveClosing, statusOk, statusPreparing) {
 		return nil
 	} // readDisconnected is being called
+	vp("close.cas", s, 0, 0)
 	s.peer.sessHub.delete(s.ID())
+	vp("close.deleted", s, 0, 0)
 	s.notifyClosed()
+	vp("close.notified", s, 0, 0)
 	s.graceCtxWait()
+	vp("close.waitedCtx", s, 0, 0)
 	s.graceCallCmdWaitGroup.Wait()
+	vp("close.waitedCalls", s, 0, 0)
 	s.changeStatus(statusActiveClosed)
+	vp("close.closed", s, 0, 0)
 	err := s.socket.Close()
+	vp("close.sock", s, 0, 0)
 	s.peer.pluginContainer.postDisconnect(s)
+	vp("close.hooked", s, 0, 0)
 	return err
 }
 
 func (s *session) readDisconnected(oldConn net.Conn, err error) {
 	status := s.getStatus()
+	vp("rd.loaded", s, int64(status), 0)
 	switch status {
 	case statusPassiveClosed, statusActiveClosed, statusPassiveClosing:
 		return
 	case statusActiveClosing:
 	default:
 		s.changeStatus(statusPassiveClosing)
+		vp("rd.stored", s, 0, 0)
 	}
 
 	s.peer.sessHub.delete(s.ID())
+	vp("rd.deleted", s, 0, 0)
 
 	var reason string
 	if err != nil && err != socket.ErrProactivelyCloseSocket {
@@ -802,6 +821,7 @@ func (s *session) readDisconnected(oldConn net.Conn, err error) {
 		}
 	}
 	s.graceCtxWait()
+	vp("rd.waited", s, 0, 0)
 
 	// cancel the callCmd that is waiting for a reply
 	s.callCmdMap.Range(func(_, v interface{}) bool {
@@ -814,15 +834,19 @@ func (s *session) readDisconnected(oldConn net.Conn, err error) {
 		return true
 	})
 
+	vp("rd.cancelled", s, 0, 0)
 	if status == statusActiveClosing {
 		return
 	}
 
 	s.socket.Close()
+	vp("rd.sock", s, 0, 0)
 	if !s.redialForClient(oldConn) {
 		s.changeStatus(statusPassiveClosed)
+		vp("rd.closed", s, 0, 0)
 		s.notifyClosed()
 		s.peer.pluginContainer.postDisconnect(s)
+		vp("rd.hooked", s, 0, 0)
 	}
 }
 
@@ -832,6 +856,7 @@ func (s *session) redialForClient(oldConn net.Conn) bool {
 	}
 	s.lock.Lock()
 	defer s.lock.Unlock()
+	vp("redial.locked", s, 0, 0)
 	// Avoid repeated calls from write and readDisconnected methods
 	if oldConn != s.getConn() {
 		return true
@@ -872,6 +897,7 @@ func (s *session) startReadAndHandle() {
 			return
 		}
 		err = s.socket.ReadMessage(ctx.input)
+		vp("read.frame", s, vpb(err != nil), int64(ctx.input.Mtype()))
 		if (err != nil && ctx.GetBodyCodec() == codec.NilCodecID) || !s.goonRead() {
 			s.peer.putContext(ctx, false)
 			return
@@ -880,6 +906,7 @@ func (s *session) startReadAndHandle() {
 			ctx.stat = statBadMessage.Copy(err)
 		}
 		s.graceCtxWaitGroup.Add(1)
+		vp("read.spawn", s, int64(ctx.input.Seq()), int64(ctx.input.Mtype()))
 		if !Go(func() {
 			defer s.peer.putContext(ctx, true)
 			ctx.handle()
@@ -893,6 +920,7 @@ func (s *session) write(message Message) (net.Conn, *Status) {
 	usedConn := s.getConn()
 	status := s.getStatus()
 	if !(status == statusOk || (status == statusActiveClosing && message.Mtype() == TypeReply)) {
+		vp("write.refused", s, int64(status), int64(message.Mtype()))
 		return usedConn, statConnClosed
 	}
 
@@ -908,6 +936,7 @@ func (s *session) write(message Message) (net.Conn, *Status) {
 	default:
 	}
 
+	vp("write.checked", s, int64(message.Seq()), int64(message.Mtype()))
 	s.writeLock.Lock()
 	defer s.writeLock.Unlock()
 
@@ -956,8 +985,10 @@ func (sh *SessionHub) set(sess *session) {
 		return
 	}
 	sh.sessions.Store(sess.ID(), sess)
+	vp("hub.stored", sess, 0, 0)
 	if oldSess := _sess.(*session); sess != oldSess {
 		oldSess.Close()
+		vp("hub.closedOld", sess, 0, 0)
 	}
 }
 
